@@ -612,7 +612,7 @@ def create_tree_likelihood_general(trait: str, data_type: dict, taxa: Taxa, arg)
 
 
 def create_tree_likelihood(id_, taxa, alignment, arg):
-    rate_init = None
+    rate_init = arg.rate_init if isinstance(arg.rate_init, float) else None
     if arg.clock is not None and (
         arg.rate_init == "regression" or arg.heights_init == "regression"
     ):
@@ -620,7 +620,7 @@ def create_tree_likelihood(id_, taxa, alignment, arg):
         # only use regression for heterochronous data
         if max(dates) != min(dates):
             rate_init_r, root_height_init = run_tree_regression(arg, taxa)
-            if arg.rate_init is None:
+            if rate_init is None:
                 rate_init = rate_init_r
             if arg.root_height_init is None:
                 arg.root_height_init = max(dates) - root_height_init
